@@ -108,12 +108,17 @@ def slim(c):
     return d
 
 
+KF1 = "grouping-sets-single-spill-merge-drops-grouping-id"
+
+
 def finding_key(c, r):
-    """stable key of an input class for known findings (none known at build time)"""
-    if "err" in r:
-        e = r["err"]
-        if "number of columns" in e and c["sets"]:
-            return "grouping-sets-memory-limit-schema-mismatch"
+    """stable key of the input class a known finding is listed under"""
+    cfg = r["cfg"]
+    if "err" in r and c["sets"] and cfg["mode"] == "single" and cfg["mem"] is not None \
+            and "number of columns(" in r["err"] and "must match number of fields(" in r["err"]:
+        # KF-C06-1: single-stage GROUPING SETS aggregation under a memory budget: after a spill the merge of the spilled
+        # runs groups on the grouping expressions only (no __grouping_id) and the batch no longer fits the schema
+        return KF1
     return None
 
 
@@ -164,7 +169,8 @@ def run(pid, tier, seed, replay):
         origin.append(c)
     n_agg_tied = 0
     for c in aggs:
-        if any("rows" in r for r in c["runs"]) and c["ok"]:
+        with_rows = [r for r in c["runs"] if "rows" in r]
+        if with_rows and all(r.get("good", False) for r in with_rows):      # oracle failures are reported above, once
             terms.append(render_agg(c))
             origin.append(c)
             n_agg_tied += 1
@@ -183,7 +189,7 @@ def run(pid, tier, seed, replay):
         terms.append(render_stream(c))
         origin.append(c)
         n_stream_tied += 1
-    bad, log, dt = vlib.coq_eval_cases(PRE, "c06_case", "c06_check", terms, shard=60, tag="c06", timeout=1500)
+    bad, log, dt = vlib.coq_eval_cases(PRE, "c06_case", "c06_check", terms, shard=100, tag="c06", timeout=1500)
     ck.log("correspondence: %d cases (%d histories, %d aggregate cases, %d stream cases), %d disagreements (%.1fs)"
            % (len(terms), len(ords), n_agg_tied, n_stream_tied, len(bad), dt))
     if bad:
